@@ -177,7 +177,18 @@ type c10World struct {
 	label    string
 }
 
+// c10MonitorOpts replaces the (practically switched off) default inactivity monitor of the servers.
+type c10MonitorOpts struct {
+	UDP  func() udpServer.Option // also used for the dtls server
+	DTLS func() dtlsServer.Option
+	TCP  func() tcpServer.Option
+}
+
 func c10NewWorld(e *Env, kind, label string, nClients int) *c10World {
+	return c10NewWorldMon(e, kind, label, nClients, nil)
+}
+
+func c10NewWorldMon(e *Env, kind, label string, nClients int, mon *c10MonitorOpts) *c10World {
 	w := &c10World{e: e, kind: kind, label: label, newConns: map[string]int{}, maxLive: map[string]int{}, handled: map[string][]int{}, counts: map[string]int{},
 		conns: map[string][]interface{ Close() error }{}, srvAddr: UDPAddr("10.0.0.100", 5683)}
 	router := mux.NewRouter()
@@ -237,6 +248,12 @@ func c10NewWorld(e *Env, kind, label string, nClients int) *c10World {
 			w.mu.Unlock()
 		})
 	}
+	var udpMon udpServer.Option = options.WithInactivityMonitor(100000*time.Second, func(cc *udpClient.Conn) { _ = cc.Close() })
+	var dtlsMon dtlsServer.Option = options.WithInactivityMonitor(100000*time.Second, func(cc *udpClient.Conn) { _ = cc.Close() })
+	var tcpMon tcpServer.Option = options.WithInactivityMonitor(100000*time.Second, func(cc *tcpClient.Conn) { _ = cc.Close() })
+	if mon != nil {
+		udpMon, dtlsMon, tcpMon = mon.UDP(), mon.DTLS(), mon.TCP()
+	}
 	switch kind {
 	case "udp":
 		e.Real("udp/server.Server (Serve loop, peer table, inactivity ticks, discovery)", "udp/server.Session", "udp/client.Conn", "net.UDPConn (read/write paths, option plumbing)", "mux.Router")
@@ -247,7 +264,7 @@ func c10NewWorld(e *Env, kind, label string, nClients int) *c10World {
 		e.OnCleanup(func() { coapNet.VerifForgetUDPConn(l) })
 		w.udpSrv = udpServer.New(options.WithMux(router), onErr, seam,
 			options.WithOnNewConn(func(cc *udpClient.Conn) { track(cc.RemoteAddr().String(), cc) }),
-			options.WithInactivityMonitor(100000*time.Second, func(cc *udpClient.Conn) { _ = cc.Close() }))
+			udpMon)
 		go func() {
 			err := w.udpSrv.Serve(l)
 			w.mu.Lock()
@@ -260,7 +277,7 @@ func c10NewWorld(e *Env, kind, label string, nClients int) *c10World {
 		w.lis = newSimListener()
 		w.tcpSrv = tcpServer.New(options.WithMux(router), onErr, seam,
 			options.WithOnNewConn(func(cc *tcpClient.Conn) { track(cc.RemoteAddr().String(), cc) }),
-			options.WithInactivityMonitor(100000*time.Second, func(cc *tcpClient.Conn) { _ = cc.Close() }),
+			tcpMon,
 			options.WithMaxMessageSize(2048))
 		go func() {
 			err := w.tcpSrv.Serve(w.lis)
@@ -274,7 +291,7 @@ func c10NewWorld(e *Env, kind, label string, nClients int) *c10World {
 		w.lis = newSimListener()
 		w.dtlsSrv = dtlsServer.New(options.WithMux(router), onErr, seam,
 			options.WithOnNewConn(func(cc *udpClient.Conn) { track(cc.RemoteAddr().String(), cc) }),
-			options.WithInactivityMonitor(100000*time.Second, func(cc *udpClient.Conn) { _ = cc.Close() }),
+			dtlsMon,
 			options.WithDTLSHandshakeTimeout(5*time.Second))
 		go func() {
 			err := w.dtlsSrv.Serve(w.lis)
